@@ -50,7 +50,7 @@ var profDurable = &Profile{
 }
 
 var profSnap = &Profile{
-	Name: "C04-snap", MinOps: 3, MaxOps: 50, NColls: 2, MemPct: 20, Snaps: true,
+	Name: "C04-snap", MinOps: 3, MaxOps: 50, NColls: 2, MemPct: 20, Snaps: true, Cmps: true,
 	Kinds: []wk{{OpSet, 26}, {OpSetR, 2}, {OpDel, 10}, {OpFlush, 8}, {OpEvict, 6}, {OpSetColl, 3}, {OpRmColl, 3}, {OpSnap, 11}, {OpSnapClose, 8},
 		{OpSnapRev, 4}, {OpSnapBad, 3}, {OpGet, 3}, {OpGetItem, 2}, {OpVisit, 4}, {OpMin, 1}, {OpClose, 1}, {OpTotals, 1},
 		{OpMax, 1}, {OpExist, 1}, {OpNames, 1}, {OpLen, 1}, {OpBlock, 1}, {OpCopyTo, 1}, {OpDel, 2}, {OpWrite, 2}},
@@ -109,7 +109,7 @@ var profRefCount = &Profile{
 
 var profIter = &Profile{
 	Name: "C18-iter", MinOps: 3, MaxOps: 35, NColls: 2, MemPct: 25, Nested: true, Snaps: true,
-	Kinds: []wk{{OpSet, 36}, {OpDel, 6}, {OpFlush, 5}, {OpEvict, 6}, {OpReopen, 2}, {OpIter, 26}, {OpVisit, 16}, {OpSnap, 2}, {OpSnapClose, 2}},
+	Kinds: []wk{{OpSet, 36}, {OpDel, 6}, {OpFlush, 5}, {OpEvict, 6}, {OpReopen, 2}, {OpIter, 26}, {OpVisit, 16}, {OpSnap, 2}, {OpSnapClose, 2}, {OpBlock, 2}, {OpRandom, 2}, {OpLen, 1}},
 }
 
 var profLazy = &Profile{
